@@ -30,6 +30,8 @@ THEOREMS = [
     'Pyiga.Props.C09.kron_symmetric', 'Pyiga.Props.C09.kron_total',
     'Pyiga.Props.C09.load_vector_spec', 'Pyiga.Props.C09.integrate_spec', 'Pyiga.Props.C09.integrate_spec_2d',
     'Pyiga.Props.C09.det2_eq_matrix_det', 'Pyiga.Props.C09.det3_eq_matrix_det',
+    'Pyiga.Props.C09.mass_total_2d', 'Pyiga.Props.C09.mass_total_3d', 'Pyiga.Props.C09.stiffness_row_sum_2d',
+    'Pyiga.Props.C09.stiffness_row_sum_zero_2d', 'Pyiga.Props.C09.stiffness_symmetric_2d',
     # n-D inner_products / integrate (incl. |det J|), tensor / boundary quadrature
     'Pyiga.Props.C09.tensor_weights_outer', 'Pyiga.Props.C09.tensor_weights_sum', 'Pyiga.Props.C09.apply_tprod_T_spec',
     'Pyiga.Props.C09.inner_products_spec', 'Pyiga.Props.C09.absVal_eq_abs', 'Pyiga.Props.C09.inner_products_geo_spec',
